@@ -76,8 +76,8 @@ theorem wlySkip_iff (r : Rule) (p : Inst) (nti : Nat) (hr : WfRule r) (hp : WfIn
       (offs_shift_mem ho) hsel _ hlt]
     unfold dayBlock
     rw [List.getElem?_map, hget, e1, e2, e3]; rfl
-  have hI : ∀ u, Instance r p u = WeeklyInst r p u := by intro u; unfold Instance; rw [hf]
-  have hP : ∀ v, periodOf r.freq v = weekStart (dayOf v) := by intro v; unfold periodOf; rw [hf]
+  have hI : ∀ u, Instance r p u = WeeklyInst r p u := by intro u; unfold Instance; rw [hf]; rfl
+  have hP : ∀ v, periodOf r.freq v = weekStart (dayOf v) := by intro v; unfold periodOf; rw [hf]; rfl
   have hchar : ∀ u, u ∈ weekL r p nti y m d ↔
       Instance r p u ∧ periodOf r.freq u = periodOf r.freq (mkz ty tm td p.ms ((iH, iM, iS), h, mi, s)) := by
     intro u
